@@ -24,6 +24,9 @@ CONSTANTS
   Direct,        \* TRUE: no front
   ForwardHalfClose, \* mechanism switch: the in-pump forwards the client's half-close
   NeedFirstMessage, \* mechanism switch: the front waits for the first client message before opening the backend stream
+  InterruptibleRecv, \* mechanism switch: when the backend fails, the front interrupts its in-pump's pending receive and waits for
+                     \* the pump before it returns (design).  FALSE = as built: it returns at once and the pump goes on using the
+                     \* stream until the transport ends it (F51: open; waiting without interrupting hangs, see JoinBeforeError)
   FirstSendEOFFatal \* mechanism switch (with NeedFirstMessage): when the backend has already ended the stream by the time the
                     \* front forwards the first message, SendMsg answers io.EOF; TRUE = the front returns that as its own error
                     \* instead of reading the backend's status (F49)
@@ -144,22 +147,32 @@ FPump == /\ inpump = "run" /\ c2f # <<>>
 \* out-loop: backend -> client, until the backend's status
 FOut == /\ fpc = "loop" /\ b2f # <<>>
         /\ IF Head(b2f) \in Finals
-           THEN /\ fstatus' = StatusOf(Head(b2f)) /\ fpc' = (IF Head(b2f) = ERRm /\ ~JoinBeforeError THEN "return" ELSE "join") /\ UNCHANGED f2c
+           THEN /\ fstatus' = StatusOf(Head(b2f))
+                /\ fpc' = (IF Head(b2f) = ERRm /\ ~JoinBeforeError THEN (IF InterruptibleRecv THEN "cancelpump" ELSE "return") ELSE "join")
+                /\ UNCHANGED f2c
            ELSE /\ f2c' = Append(f2c, Head(b2f)) /\ UNCHANGED <<fstatus, fpc>>
         /\ b2f' = Tail(b2f)
         /\ UNCHANGED <<c2f, f2b, cpc, csent, cgot, cstatus, inpump, bpc, bgot, bsent, bstatus>>
 \* on success the handler waits for the in-pump (wg.Wait)
 FJoin == /\ fpc = "join" /\ inpump \in {"done", "off"} /\ fpc' = "return"
          /\ UNCHANGED <<c2f, f2b, b2f, f2c, cpc, csent, cgot, cstatus, inpump, fstatus, bpc, bgot, bsent, bstatus>>
+\* design: the pump's receive is interrupted, then the handler may return
+FCancelPump == /\ fpc = "cancelpump" /\ fpc' = "return"
+               /\ inpump' = IF inpump = "run" THEN "cancelled" ELSE inpump
+               /\ UNCHANGED <<c2f, f2b, b2f, f2c, cpc, csent, cgot, cstatus, fstatus, bpc, bgot, bsent, bstatus>>
 FReturn == /\ fpc = "return" /\ f2c' = Append(f2c, (IF fstatus = "OK" THEN OKm ELSE IF fstatus = "ERR" THEN ERRm ELSE FERRm)) /\ fpc' = "done"
-           /\ inpump' = IF inpump = "run" THEN "cancelled" ELSE inpump   \* returning cancels the stream context
-           /\ UNCHANGED <<c2f, f2b, b2f, cpc, csent, cgot, cstatus, fstatus, bpc, bgot, bsent, bstatus>>
+           /\ UNCHANGED <<c2f, f2b, b2f, cpc, csent, cgot, cstatus, inpump, fstatus, bpc, bgot, bsent, bstatus>>
+\* as built: a pump that is still running when the handler has returned ends when the transport ends the stream context
+\* (until then FPump may still move client messages)
+FPumpEnds == /\ fpc = "done" /\ inpump = "run" /\ inpump' = "cancelled"
+             /\ UNCHANGED <<sc, c2f, f2b, b2f, f2c, cpc, csent, cgot, cstatus, fpc, fstatus, bpc, bgot, bsent, bstatus>>
 
 Done == cpc = "done"
 Next == \/ /\ UNCHANGED sc
            /\ (CSend \/ CHalfClose \/ CRead \/ BStart \/ BRead \/ BReadDone \/ BReply \/ BAfterReplies \/ BDrain \/ BFinish
                \/ BEchoRead \/ BEchoReply
-               \/ FRecvFirst \/ FSendFirst \/ FPump \/ FOut \/ FJoin \/ FReturn)
+               \/ FRecvFirst \/ FSendFirst \/ FPump \/ FOut \/ FJoin \/ FCancelPump \/ FReturn)
+        \/ FPumpEnds
         \/ (Done /\ UNCHANGED pvars)
 Spec == Init /\ [][Next]_pvars /\ WF_pvars(Next)
 
